@@ -357,14 +357,14 @@ def c03(tier):
 
 def c16(tier):
     jobs = []
-    for k in range(16):
+    for k in range(19):
         jobs.append((H('.', 'HarnessC16Identifier'), P('.'), None, {'params': {'env': k}, 'label': 'identifier env=%d' % k}))
         jobs.append((H('.', 'HarnessC16Call'), P('.'), None, {'params': {'env': k}, 'label': 'call env=%d' % k}))
         jobs.append((H('.', 'HarnessC16Doc'), P('.'), None, {'params': {'env': k}, 'label': 'doc env=%d' % k}))
     jobs.append((H('.', 'HarnessC16Member'), P('.'), None, {'label': 'member'}))
     meta = {
         'explanation': 'real CreateTypesTable/FieldsFromStruct, checker IdentifierNode/PropertyNode/MethodNode/FunctionNode (fieldType, methodType), vm.fetch/FetchFn and docgen.CreateDoc executed on a family of 16 environment values (embedding by value and by pointer, shadowing at the same and at different depths, outer field before/after the embedded struct, genuine ambiguity, unexported fields and unexported embedded types, value and pointer receivers, typed and untyped maps, function-valued members, nested struct members) x 18 member and near-miss names chosen symbolically: (i) a name Compile accepts resolves at run time on the populated value with the assumed type; (ii) for struct environments every exported member that Go itself resolves unambiguously (reflect.Type.FieldByName / MethodByName, i.e. the selector rule of the interpreter model) is accepted; (iii) docgen.CreateDoc(...).Variables lists exactly the accepted names',
-        'bounds': {'environment types': 16, 'names': 18, 'embedding depth': 2},
+        'bounds': {'environment types': 19, 'names': 21, 'embedding depth': 2},
         'outside': ['environment types beyond the family (parametric shapes chosen by the solver were not built: Go types are static)', 'docgen type rendering', 'protobuf XXX_ filtering'],
         'assumptions': COMMON_ASSUME + ['the reflect model (FieldByName selector rule, CanInterface on unexported fields, method sets) follows the reflect documentation'],
         'must_reach': ['c16.ident.compiled', 'c16.call.compiled', 'c16.member.compiled', 'c16.doc.created'],
@@ -422,9 +422,11 @@ def c09(tier):
     jobs = []
     for n, src in enumerate(srcs):
         for mapenv in ((1 if n % 5 == 0 else 0,) if q else (0, 1)):
-            jobs.append((H('.', 'HarnessC09Purity'), P('.'), None, {'params': {'src': src, 'optimize': 1, 'maxlen': 2, 'longxs': 0, 'mapenv': mapenv}, 'label': '%s [mapenv %d]' % (src, mapenv), 'job_timeout': 300 if q else 900}))
+            jobs.append((H('.', 'HarnessC09Purity'), P('.'), None, {'params': {'src': src, 'optimize': 1, 'maxlen': 2, 'longxs': 0, 'mapenv': mapenv, 'budget': 4 if n % 3 == 0 else 0}, 'label': '%s [mapenv %d]' % (src, mapenv), 'job_timeout': 300 if q else 900}))
+    for src in ['[A, B]', 'map(Xs, {# + 1})', 'len(0..A)', '{a: A, b: B}', 'filter(Xs, {# > A})', '[A, B, A + B]']:
+        jobs.append((H('.', 'HarnessC09Purity'), P('.'), None, {'params': {'src': src, 'optimize': 1, 'maxlen': 2, 'longxs': 0, 'mapenv': 0, 'budget': 4}, 'label': src + ' [budget 4, reused VM]', 'job_timeout': 600}))
     for src in ['A in Xs', 'A not in Xs', 'count(Ys, {# in Xs})', 'Xs[0] + (A in Xs ? 1 : 0)', '[Xs[0], A in Xs]', 'filter(Xs, {# > A})', 'map(Xs, {# * 2})', 'Xs[1:3]', 'len(Xs)']:
-        jobs.append((H('.', 'HarnessC09Purity'), P('.'), None, {'params': {'src': src, 'optimize': 1, 'maxlen': 2, 'longxs': 1, 'mapenv': 0}, 'label': src + ' [long Xs]', 'job_timeout': 600}))
+        jobs.append((H('.', 'HarnessC09Purity'), P('.'), None, {'params': {'src': src, 'optimize': 1, 'maxlen': 2, 'longxs': 1, 'mapenv': 0, 'budget': 0}, 'label': src + ' [long Xs]', 'job_timeout': 600}))
     for src in ['PtrAdd(1)', 'Twice(1)', 'A + B', 'Fn(1)', 'M.a', 'Zz + 1', 'PtrAdd(1) + A']:
         jobs.append((H('.', 'HarnessC09History'), P('.'), None, {'params': {'src': src}, 'label': 'history ' + src}))
     meta = {
